@@ -16,7 +16,7 @@ RULE = ('an ActiveObject with 0-3 timed sources, 0-3 poster threads and a handle
         'step runs after the current one, the thread has ended at quiescence; stop() never deadlocks. distinct_nontrivial = distinct '
         '(inside/outside, sources, posters, context-switch sequence prefix) tuples')
 CASES = {'quick': 1200, 'thorough': 80000}
-BUDGET = {'quick': 50, 'thorough': 300}
+BUDGET = {'quick': 150, 'thorough': 300}
 REQUIRE = {'runs': 500, 'stop_from_outside': 200, 'stop_from_handler': 150, 'runs_with_timed_sources': 300, 'stop_coincides_with_posting': 100, 'step_arms_timed_source_during_stop': 100,
            'application_thread_arms_source_around_stop': 100, 'application_armed_source_started_before_stop': 40}
 ASSUME = ['instantaneous-computation time model']
